@@ -1,5 +1,6 @@
 mod bitslice;
 mod common;
+mod fam_a;
 mod fam_d;
 mod fam_e;
 mod fam_l;
